@@ -3,8 +3,11 @@ CONSTANTS
   Workers = {"w1", "w2"}
   Cap = 1
   ResultKinds = {"ok", "none", "bad"}
+  OutOf <- OutSingle
+  SingleFile = TRUE
+  GenKinds = {"ok"}
   Items <- ItemsDistinct
 SPECIFICATION Spec
-INVARIANTS TypeOk ExitOk NoPanicExit CleanSucceeds Deterministic
+INVARIANTS TypeOk ExitOk NoWriteWithErrors WroteOk NoPanicExit CleanSucceeds Deterministic
 PROPERTY Terminates
 CHECK_DEADLOCK FALSE
